@@ -55,7 +55,9 @@ type Violation struct {
 }
 
 // Outcome appends to the execution's outcome signature (used to count distinct outcomes).
-func (x *X) Outcome(format string, a ...any) { x.outcome = append(x.outcome, fmt.Sprintf(format, a...)) }
+func (x *X) Outcome(format string, a ...any) {
+	x.outcome = append(x.outcome, fmt.Sprintf(format, a...))
+}
 
 // Failf records a violation with the scenario name as key.
 func (x *X) Failf(format string, a ...any) {
@@ -82,17 +84,17 @@ func (x *X) Tracing() bool { return x.trace }
 
 // Scenario is one closed program to explore.
 type Scenario struct {
-	Name        string
-	Desc        string
-	Body        func(x *X)
-	Bounds      []int // preemption bounds to run in order; -1 = unbounded; default {0,1,2}
-	AllowLive   bool  // leftover goroutines (other than main) at the end are not a violation
-	AllowPanics bool  // panics in managed goroutines are not a violation by themselves
-	MainMayBlock bool // main still blocked at the end is not a violation
-	RelPoints   bool
-	MaxSteps    int
-	MaxExecs    int  // per-bound execution budget for this scenario (0 = default); exceeding it caps the scenario
-	Sequential  bool // no scheduler: Body is run once, directly (engine B/D style scenario)
+	Name         string
+	Desc         string
+	Body         func(x *X)
+	Bounds       []int // preemption bounds to run in order; -1 = unbounded; default {0,1,2}
+	AllowLive    bool  // leftover goroutines (other than main) at the end are not a violation
+	AllowPanics  bool  // panics in managed goroutines are not a violation by themselves
+	MainMayBlock bool  // main still blocked at the end is not a violation
+	RelPoints    bool
+	MaxSteps     int
+	MaxExecs     int  // per-bound execution budget for this scenario (0 = default); exceeding it caps the scenario
+	Sequential   bool // no scheduler: Body is run once, directly (engine B/D style scenario)
 }
 
 // Config of a check run.
@@ -103,6 +105,9 @@ type Config struct {
 	Assume    []string
 	Extra     map[string]any
 	Technique string
+	// RequireShims: also for sequential-only checks, fail (exit 2) when no synchronisation operation of
+	// instrumented code was observed at all (overlay not applied).
+	RequireShims bool
 }
 
 type item struct {
@@ -134,6 +139,7 @@ type stats struct {
 	Rest       [][]int        `json:"rest"`
 	Counts     map[string]int `json:"c,omitempty"`
 	Samples    []any          `json:"s,omitempty"`
+	ShimOps    int64          `json:"so,omitempty"`
 }
 
 func (a *stats) merge(b *stats) {
@@ -159,6 +165,7 @@ func (a *stats) merge(b *stats) {
 		}
 	}
 	a.EngineErr = append(a.EngineErr, b.EngineErr...)
+	a.ShimOps += b.ShimOps
 	for k, v := range b.Counts {
 		if a.Counts == nil {
 			a.Counts = map[string]int{}
@@ -358,14 +365,18 @@ func workerLoop(scns []Scenario) {
 		var st *stats
 		if scn.Sequential {
 			old := runtime.GOMAXPROCS(runtime.NumCPU())
+			before := vrt.ShimOps
 			_, st = runSeq(scn, false)
+			st.ShimOps = vrt.ShimOps - before
 			runtime.GOMAXPROCS(old)
 		} else {
 			if !warmed[rq.Item.Scn] {
 				warmed[rq.Item.Scn] = true
 				runOne(scn, nil, false)
 			}
+			before := vrt.ShimOps
 			st = exploreItem(scn, rq.Item.Bound, rq.Item.Prefix, rq.Budget, time.UnixMilli(rq.Deadline))
+			st.ShimOps = vrt.ShimOps - before
 		}
 		b, _ := json.Marshal(st)
 		out.Write(b)
@@ -690,6 +701,15 @@ func run(cfg Config, scns []Scenario, tier, only string, nproc int, limit time.D
 		}
 	}
 
+	nconc := 0
+	for _, i := range sel {
+		if !scns[i].Sequential {
+			nconc++
+		}
+	}
+	if (nconc > 0 || cfg.RequireShims) && total.ShimOps == 0 && os.Getenv("VERIF_ALLOW_NO_SHIMS") == "" {
+		engineErrs = append(engineErrs, "no synchronisation operation of instrumented code reached the scheduler: the instrumentation overlay is not applied to this build (the exploration would be vacuous)")
+	}
 	if len(engineErrs) > 0 {
 		for _, e := range engineErrs {
 			fmt.Println("ERROR: engine:", e)
@@ -779,16 +799,16 @@ func run(cfg Config, scns []Scenario, tier, only string, nproc int, limit time.D
 			}
 		}
 		ev := map[string]any{
-			"property_id": cfg.Property,
-			"tier":        tier,
-			"seed":        seed,
-			"level":       level,
-			"coverage":    cov,
-			"assumptions": cfg.Assume,
-			"wall_s":      wall,
-			"violations":  nviol,
+			"property_id":               cfg.Property,
+			"tier":                      tier,
+			"seed":                      seed,
+			"level":                     level,
+			"coverage":                  cov,
+			"assumptions":               cfg.Assume,
+			"wall_s":                    wall,
+			"violations":                nviol,
 			"known_findings_reproduced": len(known),
-			"technique":   cfg.Technique,
+			"technique":                 cfg.Technique,
 		}
 		b, _ := json.MarshalIndent(ev, "", " ")
 		os.MkdirAll(filepath.Join(root, "evidence"), 0o755)
